@@ -280,6 +280,8 @@ def make(rng, cls, max_iter, spec=None):
               for _ in range(nL)]
         cs = [s.setdefault("c%d" % i, pr.choice([100.0, 100.0, 0.5])) for i in range(nL)]
         cn = s.setdefault("c_norm", pr.choice([None, None, 50.0]))
+        # no block that can ever produce a residual: no L block at all, or only all-zero L matrices, and no norm constraint
+        s["inert"] = bool(all(not np.any(L_) for L_ in Ls) and cn is None)
         a = SA.SDMM(sp.linop.MatMul((n, 1), Am), d, s.setdefault("lam", pr.choice([0.1, 1.0])), Ls, cs, s.setdefault("mu", pr.choice([1.0, 0.5])),
                     [1.0] * nL, 1.0, 1.0, eps_pri=s.setdefault("eps_pri", 0), eps_dual=s.setdefault("eps_dual", 0), c_max=None,
                     c_norm=cn, max_cg_iter=s.setdefault("cg", pr.choice([3, 30])), max_iter=max_iter)
@@ -791,9 +793,10 @@ def key_for(cls, spec, what):
     if what == "counter" and cls == "GerchbergSaxton":
         return KEY_GS
     if what == "early-stop" and cls == "SDMM":
-        # the recorded finding is the configuration WITHOUT any constraint block (nL = 0, no c_norm / c_max): nothing is tested there;
+        # the recorded finding is the configuration WITHOUT any effective constraint block (no L block or only all-zero L matrices, no c_norm / c_max): nothing is tested there;
         # an early stop at a non-fixed point with constraint blocks (the repaired z_old alias) keeps the general key
-        return KEY_SDMM + ":no-constraint-blocks" if (spec.get("nL") == 0 and spec.get("c_norm") is None) else KEY_SDMM
+        inert = spec.get("inert", spec.get("nL") == 0 and spec.get("c_norm") is None)
+        return KEY_SDMM + ":no-constraint-blocks" if inert else KEY_SDMM
     if what == "early-stop" and cls == "PrimalDualHybridGradient":
         return KEY_PDHG
     if what == "early-stop" and cls == "GradientMethod" and spec.get("accel"):
